@@ -73,7 +73,7 @@ func (c *passClock) Now() time.Time {
 }
 
 type vacStep struct {
-	Op  string `json:"op"` // reg | adv | reg-in-pass
+	Op  string `json:"op"` // reg | reg-many (Key = how many) | adv | reg-in-pass
 	Ms  int    `json:"ms,omitempty"`
 	Key int    `json:"key,omitempty"`
 }
@@ -85,7 +85,13 @@ func TestVacuumKeepsEveryRegistration(t *testing.T) {
 		tickMs := rapid.SampledFrom([]int{500, 1000}).Draw(t, "tick")
 		steps := rapid.SliceOfN(rapid.Custom(func(t *rapid.T) vacStep {
 			switch rapid.IntRange(0, 9).Draw(t, "op") {
-			case 0, 1, 2, 3:
+			case 0, 1, 2:
+				return vacStep{Op: "reg"}
+			case 3:
+				if rapid.IntRange(0, 2).Draw(t, "many") == 0 {
+					// a wave of transactions: hundreds of entries wait for the same pass
+					return vacStep{Op: "reg-many", Key: rapid.SampledFrom([]int{60, 127, 128, 129, 200, 520}).Draw(t, "n")}
+				}
 				return vacStep{Op: "reg"}
 			case 4, 5:
 				return vacStep{Op: "reg-in-pass"}
@@ -141,8 +147,14 @@ func TestVacuumKeepsEveryRegistration(t *testing.T) {
 		started := false
 		for i, st := range steps {
 			switch st.Op {
-			case "reg":
+			case "reg", "reg-many":
 				register()
+				for j := 1; j < st.Key; j++ {
+					register()
+				}
+				if st.Key >= 128 {
+					r.Class("a wave of >=128 registrations")
+				}
 				if !started {
 					// the first registration starts the background loop: wait until it has armed its first timer
 					started = true
